@@ -124,6 +124,11 @@ func (d *Decoder) Decode(pkt *rtp.Packet) ([][]byte, error) {
 		}
 
 		le := len(pkt.Payload[2:])
+		if le == 0 {
+			d.resetFragments()
+			return nil, fmt.Errorf("payload is too short")
+		}
+
 		d.fragmentsSize += le
 		d.fragmentsExpected -= le
 
